@@ -169,16 +169,20 @@ impl<'a> G<'a> {
                 }
                 self.ows(); self.mark("=", MK::Delim("ASSIGN", false)); self.ows();
             }
+            self.tp();
             self.arg_value(true);
+            self.tp();
         }
         self.depth -= 1;
         if n == 0 { self.ows(); }
+        self.tp();
         self.mark(")", MK::Delim("RPAREN", false));
     }
     // a macro argument value. top_comma_terminates: whether a top-level comma would end the value (so we never emit one unmasked)
     fn arg_value(&mut self, _top: bool) {
         let n = self.u.below(4);
         for _ in 0..n {
+            self.tp();
             match if self.depth > 5 { self.u.below(3) } else { self.u.below(11) } {
                 0 | 1 => { let w = self.pick(WORDS); self.p(w); self.tp(); }
                 2 => { let ws = self.pick(&[" ", " ", "\n", "\t"]); self.p(ws); let w = self.pick(WORDS); self.p(w); self.tp(); }
@@ -235,6 +239,7 @@ impl<'a> G<'a> {
         let st = self.out.len();
         let n = self.u.below(5);
         for _ in 0..n {
+            self.tp();
             match self.u.below(10) {
                 0 | 1 => { let w = self.pick(WORDS); self.p(w); self.tp(); }
                 2 => self.p(" "),
@@ -262,7 +267,9 @@ impl<'a> G<'a> {
         for i in 0..n {
             if i > 0 { if self.u.coin(1, 2) { let w = self.pick(&[" ", "\n", "  "]); self.mark(w, MK::HiddenWs); } self.eval_op(); self.ows(); }
             if self.u.coin(1, 8) { let o = self.pick(&["-", "+", "not ", "^", "~", "NOT "]); let t = match o { "-" => "MINUS", "+" => "PLUS", "not " | "NOT " => "KwNOT", _ => "NOT" }; let l = o.trim_end().len(); let off = self.out.len(); self.p(o); self.marks.push(Mark { off, len: l, kind: MK::Op(t) }); }
+            self.tp();
             prev_int = self.eval_operand(float);
+            self.tp();
         }
         self.depth -= 1;
         self.last_int = prev_int;
